@@ -398,8 +398,70 @@ def nontrivial(c: Case) -> bool:
     return c.obs is not None and c.obs[0] == "OInvalid"
 
 
+def coerced_record_nodes() -> Optional[dict]:
+    """Record-shaped validators behind a coercer that builds a *new* mapping (pairs -> dict): every node of a later
+    stage - the key errors, each missing-key entry, the unknown-keys error - holds the coerced mapping (one object),
+    the coercion failure holds the caller's own object."""
+    import dataclasses as _dc
+    from typing import NamedTuple, TypedDict
+    from koda import Just, nothing
+    from koda_validate import (Coercer, DataclassValidator, DictValidatorAny, IntValidator, NamedTupleValidator, StringValidator,
+                               TypedDictValidator)
+    from koda_validate.errors import CoercionErr, ExtraKeysErr, KeyErrs, MissingKeyErr
+    from ..corr import drive
+    made: list = []
+
+    def pairs_to_dict(v):
+        if type(v) is list and all(type(p_) is tuple and len(p_) == 2 for p_ in v):
+            made.append(dict(v))
+            return Just(made[-1])
+        return nothing
+    co = Coercer(pairs_to_dict, {list})
+    TD = TypedDict("TD", {"a": int, "b": str})
+    DC = _dc.make_dataclass("DC", [("a", int), ("b", str)])
+    NT = NamedTuple("NT", [("a", int), ("b", str)])
+    ov = {"a": IntValidator(), "b": StringValidator()}
+    builds = [("TypedDictValidator", lambda s_: TypedDictValidator(TD, overrides=dict(ov), coerce=co, fail_on_unknown_keys=s_)),
+              ("DataclassValidator", lambda s_: DataclassValidator(DC, overrides=dict(ov), coerce=co, fail_on_unknown_keys=s_)),
+              ("NamedTupleValidator", lambda s_: NamedTupleValidator(NT, overrides=dict(ov), coerce=co, fail_on_unknown_keys=s_)),
+              ("DictValidatorAny", lambda s_: DictValidatorAny(dict(ov), coerce=co, fail_on_unknown_keys=s_))]
+    for name, mk in builds:
+        for strict in (False, True):
+            try:
+                v = mk(strict)
+            except TypeError:
+                continue        # this validator takes no coercer
+            for x in ([("a", 1)], [("b", "s")], [], [("a", "no")], [("a", 1), ("b", "s"), ("zz", 0)], {"a": 1}, "nope"):
+                for mode in ("sync", "async"):
+                    del made[:]
+                    r = v(x) if mode == "sync" else drive(v.validate_async(x))
+                    if r.is_valid:
+                        continue
+                    e = r.err_type
+                    where = f"{name}(coerce=pairs->dict, fail_on_unknown_keys={strict}) ({mode}) on {x!r}"
+                    if isinstance(e, CoercionErr):
+                        if r.value is not x:
+                            return {"signature": "C14:value", "what": f"{where}: the coercion failure holds {r.value!r}, not the caller's own object"}
+                        continue
+                    if not made:
+                        continue
+                    coerced = made[-1]
+                    if isinstance(e, (KeyErrs, ExtraKeysErr)) and r.value is not coerced:
+                        return {"signature": "C14:value", "what": f"{where}: the {type(e).__name__} node holds {r.value!r} (is the raw input: {r.value is x}), not the coerced mapping {coerced!r}"}
+                    if isinstance(e, KeyErrs):
+                        for k, ch in e.keys.items():
+                            if isinstance(ch.err_type, MissingKeyErr) and (ch.value is not coerced or ch.validator is not v):
+                                return {"signature": "C14:value",
+                                        "what": f"{where}: the missing-key entry for {k!r} holds {ch.value!r} (is the raw input: {ch.value is x}) and names {ch.validator!r}; "
+                                                f"the mapping that lacks the key is the coerced one, {coerced!r}"}
+    return None
+
+
 def run(tier: str, rng: random.Random, proof_ok: bool) -> dict:
     rep = run_families("C14", cases(tier, rng), rng, oracle, nontrivial)
+    crn = coerced_record_nodes()
+    if crn:
+        rep["violations"].append({"kind": "oracle", **crn, "replay_case": {"coerced_record_nodes": True}})
     bad, n = histories(tier, rng)
     rep["violations"] += bad
     rep["coverage"]["histories_on_one_instance"] = n
@@ -410,6 +472,10 @@ def replay(path: str) -> int:
     import json
     from .hist import replay_special
     rc = json.load(open(path)).get("replay_case")
+    if isinstance(rc, dict) and rc.get("coerced_record_nodes"):
+        r_ = coerced_record_nodes()
+        print("property violated: " + r_["what"] if r_ else "property holds for record validators behind a mapping-building coercer")
+        return 1 if r_ else 0
     judge = lambda d: type(d["got"]) is Invalid or type(d["alone"]) is Invalid
     r = replay_special(rc, "C14", judge=judge) if isinstance(rc, dict) else None
     return r if r is not None else generic_replay(path, oracle)
